@@ -36,6 +36,7 @@ type Finding struct {
 	Impl     string `json:"implementation,omitempty"`
 	Known    string `json:"known_finding,omitempty"`
 	InputHex string `json:"input_hex,omitempty"`
+	Host     string `json:"host,omitempty"` // the serialized hostname the finding is about, where relevant
 }
 
 type Ctx struct {
